@@ -1,5 +1,6 @@
 """Witness search and dynamic assumption checks, delegated to the native replay binary (real crates)."""
 import json
+import os
 import subprocess
 
 
@@ -33,6 +34,8 @@ def search(uname, ucfg, diag, binp, tier, repo, build, log):
     spec = per_fn.get(diag.get('fn')) or w.get('default')
     if not spec:
         return dict(found=False, detail=f'no witness search for function {diag.get("fn")}')
+    if spec.get('kind') == 'cli':
+        return cli_search(spec['mode'], repo, build, log)
     args = list(spec['cmd_thorough'] if tier == 'thorough' and spec.get('cmd_thorough') else spec['cmd'])
     args += diag.get('witness_args') or []
     d, err = _run([binp] + args, timeout=spec.get('timeout', 900))
@@ -42,3 +45,143 @@ def search(uname, ucfg, diag, binp, tier, repo, build, log):
         return dict(found=True, input=d.get('input'), clause=d.get('clause'), detail=d.get('detail'), tried=d.get('tried'),
                     replay_cmd=[spec['replay'], d.get('input')] if spec.get('replay') else None, searched=' '.join(args))
     return dict(found=False, tried=d.get('tried'), detail='no failing input in the enumerated space', searched=' '.join(args))
+
+
+# ---------------------------------------------------------------------------------------------------------------
+# Property-level replay through the real command-line tool (built from /repo's working tree on demand)
+
+TRUNCATION_BASES = ["ret 1", "let x = 1 in\nret x", "/- c -/ ret 1", "ret 1 -- c\n"]
+TRUNCATION_JUNK = [" -/ junk (((", "\n-/\n)))", " # junk", " ) junk", " \" junk", "\n/- c -/ -/ junk (", " ' junk", " `", "\n--| doc\n-/ x (",
+                   " /- a /- b -/ c -/ -/ junk (", " -/", "\n\n-/ ret 2", " \u00a7 junk", " -/ -/ (", " /- x -/ ) (", "\n} junk", " ~ (", " \\ ("]
+
+
+def build_cli(repo, build, log):
+    import os
+    import subprocess
+    env = dict(os.environ, CARGO_NET_OFFLINE='true', CARGO_TERM_COLOR='never')
+    tdir = os.path.join(build, 'cli-target')
+    p = subprocess.run(['cargo', 'build', '--offline', '--quiet', '--bin', 'zydeco', '--manifest-path', os.path.join(repo, 'Cargo.toml'), '--target-dir', tdir],
+                       env=env, stdout=subprocess.PIPE, stderr=subprocess.STDOUT, text=True)
+    b = os.path.join(tdir, 'debug', 'zydeco')
+    if p.returncode != 0 or not os.path.exists(b):
+        log('CLI build failed:\n' + p.stdout[-2000:])
+        return None
+    return b
+
+
+def cli_run(binp, build, content, sub='check'):
+    import os
+    import subprocess
+    d = os.path.join(build, 'cli-work')
+    os.makedirs(d, exist_ok=True)
+    f = os.path.join(d, 'w.zy')
+    open(f, 'w', encoding='utf-8').write(content)
+    env = dict(os.environ, RUST_BACKTRACE='0', NO_COLOR='1')
+    try:
+        p = subprocess.run([binp, sub, f] if sub != 'fmt-check' else [binp, 'fmt', '--check', f], env=env, stdout=subprocess.PIPE, stderr=subprocess.PIPE, text=True, timeout=60)
+        return p.returncode, (p.stdout + p.stderr)[-600:]
+    except subprocess.TimeoutExpired:
+        return -9, 'timeout (60 s)'
+
+
+def cli_check_one(binp, build, mode, content):
+    """-> (fails, detail)"""
+    rc, out = cli_run(binp, build, content, 'check')
+    if rc == 101 or 'panicked at' in out or rc < 0 or rc >= 128:
+        return True, f'`zydeco check` did not end through the normal error path: exit {rc}: {out[-300:]}'
+    if mode == 'truncation':
+        if rc == 0:
+            return True, '`zydeco check` ACCEPTED a file that has tokens outside comments after a complete program (silent truncation)'
+        rc2, out2 = cli_run(binp, build, content, 'fmt-check')
+        if rc2 == 0:
+            return True, '`zydeco fmt --check` accepted a file that `check` rejects: the formatter did not see the whole file'
+    return False, ''
+
+
+def cli_search(mode, repo, build, log):
+    binp = build_cli(repo, build, log)
+    if not binp:
+        return dict(found=False, detail='CLI could not be built')
+    n = 0
+    if mode == 'truncation':
+        for b in TRUNCATION_BASES:
+            # the base itself must be accepted, otherwise the candidate says nothing
+            rc, _ = cli_run(binp, build, b)
+            if rc != 0:
+                continue
+            for j in TRUNCATION_JUNK:
+                n += 1
+                fails, detail = cli_check_one(binp, build, mode, b + j)
+                if fails:
+                    return dict(found=True, input=b + j, clause='PROPERTY', detail=detail, tried=n, replay_cmd=['@cli', mode, b + j], searched='zydeco check/fmt over base x junk candidates')
+    return dict(found=False, tried=n, detail='no failing input among the CLI candidates', searched='zydeco check/fmt over base x junk candidates')
+
+
+# ---------------------------------------------------------------------------------------------------------------
+# C05: the literal contracts [RANGE]/[EXACT] evaluated at the property's observation point, the command-line tool:
+# `<literal>` in checking position at each of the 8 integer types and both float types, and in synthesising position
+# (defaults to Int64 / Float64). These are the two call sites of with_type inside the type checker that no verifier reaches.
+
+INT_TYPES = [('Int8', 'int8', -2**7, 2**7 - 1), ('Int16', 'int16', -2**15, 2**15 - 1), ('Int32', 'int32', -2**31, 2**31 - 1), ('Int64', 'int64', -2**63, 2**63 - 1),
+             ('UInt8', 'uint8', 0, 2**8 - 1), ('UInt16', 'uint16', 0, 2**16 - 1), ('UInt32', 'uint32', 0, 2**32 - 1), ('UInt64', 'uint64', 0, 2**64 - 1)]
+
+
+def _lit_program(repo, tname, pkg, literal, expected, synth=False):
+    builtin = os.path.join(repo, 'lib/std/builtin.zy')
+    use = f"let value = {literal} that\n  do rendered <- ! ({pkg}/to_string) value;" if synth else f"do rendered <- ! ({pkg}/to_string) {literal};"
+    return f"""begin
+  param (
+    (/numeric; /text; /system) :
+    @(import("{builtin}"))
+  ) that
+  let (Scalar = {tname}, {pkg}) = numeric/{pkg} that
+  let string = text/string that
+  let (/OS; /process) = system that
+
+  {use}
+  ! (string/eq) OS rendered "{expected}"
+    {{ ! (process/exit) 0 }}
+    {{ ! (process/exit) 3 }}
+end
+"""
+
+
+def cli_literals(repo, build, log, only=None):
+    import os as _os
+    binp = build_cli(repo, build, log)
+    if not binp:
+        return None, 'CLI could not be built'
+    n = 0
+    cases = []
+    for (tname, pkg, lo, hi) in INT_TYPES:
+        for v in sorted({lo - 2, lo - 1, lo, lo + 1, -1, 0, 1, hi - 1, hi, hi + 1, hi + 2}):
+            cases.append((tname, pkg, str(v), str(v), lo <= v <= hi, False))
+    for v in [2**63 - 1, 2**63, 2**63 + 1, -2**63, -2**63 - 1, 2**64 - 1, 2**64, 0, -1, 2**127 - 1, -2**127]:
+        cases.append(('Int64', 'int64', str(v), str(v), -2**63 <= v <= 2**63 - 1, True))
+    f32max = '340282350000000000000000000000000000000'
+    for lit, exp, ok in [('1.5', '1.5', True), ('3.4028235e38', f32max, True), ('-3.4028235e38', '-' + f32max, True), ('3.40282356e38', f32max, True),
+                         ('3.4028236e38', None, False), ('3.5e38', None, False), ('1e39', None, False), ('-1e39', None, False), ('1.0e-50', '0', True), ('16777217.0', '16777216', True)]:
+        cases.append(('Float32', 'float32', lit, exp, ok, False))
+    for lit, exp, ok in [('1.5', '1.5', True), ('1e308', None, True), ('0.1', '0.1', True)]:
+        cases.append(('Float64', 'float64', lit, exp, ok, False))
+    for (tname, pkg, lit, exp, ok, synth) in cases:
+        if only and only != f'{pkg}:{lit}:{int(synth)}':
+            continue
+        n += 1
+        prog = _lit_program(repo, tname, pkg, lit, exp if exp is not None else lit, synth)
+        rc, out = cli_run(binp, build, prog, 'run')
+        where = f"{'unannotated (defaults to ' + tname + ')' if synth else 'at ' + tname}"
+        inp = f'{pkg}:{lit}:{int(synth)}'
+        if rc == 101 or 'panicked at' in out:
+            return dict(found=True, input=inp, clause='RANGE', detail=f'literal {lit} {where}: the tool panicked: {out[-200:]}', tried=n), None
+        if ok:
+            if rc == 1 and 'outside' in out:
+                return dict(found=True, input=inp, clause='RANGE', detail=f'literal {lit} {where} lies in range but is REJECTED: {out[-160:]}', tried=n), None
+            if rc == 3 and exp is not None:
+                return dict(found=True, input=inp, clause='EXACT', detail=f'literal {lit} {where} is accepted but its run-time value does not print as {exp}', tried=n), None
+            if rc not in (0, 3):
+                return dict(found=False, tried=n, detail=f'harness program for {lit} {where} did not run (exit {rc}): {out[-200:]}', broken=True), None
+        else:
+            if rc in (0, 3):
+                return dict(found=True, input=inp, clause='RANGE', detail=f'literal {lit} {where} lies OUTSIDE the range but is accepted (run exit {rc}; 3 = run-time value differs from the literal)', tried=n), None
+    return dict(found=False, tried=n), None
